@@ -5,9 +5,10 @@ namespace Aiocoap.Oscore.Persist
 open Aiocoap.Oscore
 
 /-- the disk is never ahead of the memory in a dangerous way: a load yields either an
-uninitialised window or exactly the given one -/
+uninitialised window, or exactly the given one, or the given one put through
+`initialize_from_persisted` (which refuses at least what the given one refuses) -/
 def Safe (cfg : Cfg) (d : Dir) (ow : Option RW) : Prop :=
-  diskWindow cfg d = none ∨ diskWindow cfg d = ow
+  diskWindow cfg d = none ∨ diskWindow cfg d = ow ∨ diskWindow cfg d = reloaded cfg ow
 
 /-- facts about a live process and its directory -/
 structure Live (cfg : Cfg) (d : Dir) (m : Mem) : Prop where
@@ -78,7 +79,7 @@ theorem store_received {cfg : Cfg} {d : Dir} {m : Mem} (n : Nat) (c : Option Nat
     | true =>
       have : received m = .window (persistWindow m.window) := by rw [received_eq, hp]; rfl
       rw [this]
-      exact ⟨Or.inr (diskWindow_store_window cfg d n m.window hc h.size), fun h' => by cases h'⟩
+      exact ⟨Or.inr (Or.inr (diskWindow_store_window cfg d n m.window hc)), fun h' => by cases h'⟩
   · have hc' : completes c = false := by simpa using hc
     refine ⟨?_, fun hp => diskUnknown_store_incomplete _ hc' (h.unknown hp)⟩
     unfold Safe
@@ -166,11 +167,28 @@ theorem WinStep.accepted_refused {sz : Nat} {win win' : Option RW} {a : Arrival}
     cases ho
     exact ⟨_, rfl, freshlySeen_refuses _ _ hsz⟩
 
+theorem Blocked.reloaded {cfg : Cfg} {ow : Option RW} {n : Nat} (hb : Blocked ow n) :
+    Blocked (reloaded cfg ow) n := by
+  intro w' hw'
+  cases ow with
+  | none => simp [Persist.reloaded] at hw'
+  | some w =>
+    simp only [Persist.reloaded, Option.map_some, Option.some.injEq] at hw'
+    subst hw'
+    exact RW.fromPersisted_keeps_refused w cfg.size n (hb w rfl)
+
+theorem Refused.reloaded {cfg : Cfg} {ow : Option RW} {n : Nat} (hr : Refused ow n) :
+    Refused (reloaded cfg ow) n := by
+  obtain ⟨w, hw, hv⟩ := hr
+  subst hw
+  exact ⟨_, rfl, RW.fromPersisted_keeps_refused w cfg.size n hv⟩
+
 theorem Safe.blocked {cfg : Cfg} {d : Dir} {ow : Option RW} (h : Safe cfg d ow) {n : Nat}
     (hb : Blocked ow n) : Blocked (diskWindow cfg d) n := by
-  rcases h with h | h
+  rcases h with h | h | h
   · intro w hw; rw [h] at hw; cases hw
   · rw [h]; exact hb
+  · rw [h]; exact hb.reloaded
 
 theorem diskUnknown_store_received {d : Dir} {m : Mem} (n : Nat) (c : Option Nat)
     (hp : m.windowPersisted = false) (h : DiskUnknown d) :
@@ -212,7 +230,7 @@ theorem step_invW (cfg : Cfg) (s : State) (ev : Ev) (h : InvW cfg s) :
       intro m hm
       simp only [step, Option.some.injEq] at hm
       subst hm
-      exact ⟨fun hp => load_wp_false hp, Or.inr (load_window cfg d e).symm,
+      exact ⟨fun hp => load_wp_false hp, Or.inr (Or.inl (load_window cfg d e).symm),
         fun w hw => load_size hw⟩
     | _ => intro m hm; simp [step] at hm
   | some m =>
@@ -264,9 +282,10 @@ theorem step_invW (cfg : Cfg) (s : State) (ev : Ev) (h : InvW cfg s) :
               | true => exact absurd ⟨rfl, hp⟩ hb
             exact Or.inl (diskWindow_unknown (L.unknown hp))
           | echo hw =>
-            rcases L.safe with h' | h'
+            rcases L.safe with h' | h' | h'
             · exact Or.inl h'
             · exact Or.inl (by rw [h', hw])
+            · exact Or.inl (by rw [h', hw]; rfl)
 
 theorem run_invW (cfg : Cfg) (evs : List Ev) (s : State) (h : InvW cfg s) :
     InvW cfg (run cfg s evs).1 := by
